@@ -540,6 +540,54 @@ func c04R5(p *Prog, r *Report) {
 		}
 	})
 	r.Check(nRel >= 1 && okRel, "C04.R5", "each card is told to release exactly frames-used x frame-size bytes", p.Pos(fn.Pos()), fmt.Sprintf("%d release calls", nRel), "the bytes released to the driver are not frames-used x frame-size: data is skipped or read twice")
+	// re-alignment after a data drop: when the read buffer is cut at a non-zero offset L (the
+	// bytes in front of the first whole frame), those L bytes are released to the driver on
+	// every path before the next read - otherwise the next read starts at the same mid-frame
+	// position and every later block is mis-aligned
+	Instrs(fn, func(in ssa.Instruction) {
+		sl, ok := in.(*ssa.Slice)
+		if !ok || sl.Low == nil {
+			return
+		}
+		if _, isByte := sl.Type().Underlying().(*types.Slice); !isByte || sl.Type().Underlying().(*types.Slice).Elem().String() != "byte" {
+			return
+		}
+		if k, isC := constInt(sl.Low); isC && k == 0 {
+			return
+		}
+		L := pc.Of(sl.Low)
+		if c, isC := L.IsConst(); isC && c == 0 {
+			return
+		}
+		releases := func(x ssa.Instruction) bool {
+			cc := CallOf(x)
+			if cc == nil || !cc.IsInvoke() || cc.Method.Name() != "ReleaseBytes" {
+				return false
+			}
+			A := pc.Of(cc.Args[0])
+			rest := A.Sub(L)
+			return !mentionsAny(rest, L) && mentionsAny(A, L)
+		}
+		// a release that dominates the cut also counts (the original releases first, then cuts)
+		domRel := false
+		Instrs(fn, func(x ssa.Instruction) {
+			if releases(x) && InstrDominates(x, in) {
+				domRel = true
+			}
+		})
+		esc := []ssa.Instruction{}
+		if !domRel {
+			esc = ReachAvoiding(fn, in, releases, func(x ssa.Instruction) bool {
+				if cc := CallOf(x); cc != nil && cc.IsInvoke() && cc.Method.Name() == "AvailableBuffer" {
+					return true
+				}
+				_, isRet := x.(*ssa.Return)
+				return isRet
+			})
+		}
+		r.Check(len(esc) == 0, "C04.R5", "bytes skipped in front of the first whole frame after a data drop are released", p.InstrPos(in), "a ReleaseBytes call whose argument contains the skipped byte count lies on every path to the next read",
+			"the buffer is cut at offset "+L.String()+" but no ReleaseBytes call on the way to the next read includes those bytes: the driver's read position stays inside a frame, so every later read is detected as another drop and frame numbers run away")
+	})
 	// the 3-frame minimum of the property: shorter reads are skipped without releasing bytes,
 	// and the frame-bit search runs only on reads of at least three frames
 	okMin, minDesc := false, "no guard of the form len(b) < k*frameSize found"
